@@ -348,6 +348,21 @@ fn infeasible_after_feasible_life<K: Kit>(sc: &Scenario, seq: &[u8], rep: &mut R
     }
 }
 
+/// (3') every call returns although the goal sampler fails for good (free world: only the sampler is broken)
+fn dead_goal_sampler_case<K: Kit>(sc: &Scenario, seq: &[u8], rep: &mut Report) {
+    rep.count("evaluations", 1);
+    rep.count("transitions", seq.len() as u64);
+    let run = guarded(|| {
+        let mut rig = Rig::<K>::new(sc, true);
+        seams::set_valid_cap(50_000_000);
+        rig.feed(seq).into_iter().map(|(r, _)| r.is_ok()).collect::<Vec<bool>>()
+    });
+    match run {
+        Err(c) => caught_to_report(sc, "goal-sampler-dead", seq, c, rep),
+        Ok(_) => rep.count("dead_goal_sampler_cases_returned", 1),
+    }
+}
+
 /// (3c) infeasible worlds under the real samplers and the seeded generator: seed lattice x chunks of iterations.
 fn infeasible_seeded<K: Kit>(sc0: &Scenario, _depth: usize, rep: &mut Report) {
     let pk = sc0.params.pk.name();
@@ -459,6 +474,23 @@ fn jobs(tier: &str) -> Vec<Job> {
                 sc.spec = spec;
                 out.push(Job { sc, part: 2, letters: b.sub3.clone(), depth: 2 });
             }
+            // (3') a goal sampler that can never deliver (fails at every call from its k-th on): the call
+            // must come back with an error, not keep asking
+            if pk != Pk::Prm {
+                for k in [0usize, 1, 2] {
+                    for kind in [0u8, 1] {
+                        for bias in [1.0, 0.0] {
+                            let mut sc = b.scenario(b.world_free(), b.params(pk, 1.0, 2.5, bias), &format!("C06/goal-sampler-dead/{kit}/{}/from{k}/kind{kind}/bias{bias}", pk.name()));
+                            sc.goal_fail_from = Some((k, kind));
+                            if bias >= 1.0 {
+                                sc.alphabet = sc.goal_samples.clone();
+                            }
+                            let letters: Vec<u8> = if bias >= 1.0 { (0..b.goal_samples.len() as u8).collect() } else { b.sub3.clone() };
+                            out.push(Job { sc, part: 6, letters, depth: 2 });
+                        }
+                    }
+                }
+            }
             // (3) infeasible worlds x all sample sequences
             let inf: Vec<WorldSpec> = vec![
                 b.world_named("goal-sealed-off", vec![b.seal_goal.clone()]),
@@ -509,11 +541,12 @@ fn run_job<K: Kit>(job: &Job, rep: &mut Report) {
             2 => work_cap_case::<K>(&job.sc, seq, rep),
             4 => infeasible_after_feasible_life::<K>(&job.sc, seq, rep),
             5 => infeasible_seeded::<K>(&job.sc, job.depth, rep),
+            6 => dead_goal_sampler_case::<K>(&job.sc, seq, rep),
             _ => infeasible_case::<K>(&job.sc, seq, rep),
         }
         rep.distinct.insert(h128(&[job.part as u64, h128(&job.sc.tag.bytes().map(|b| b as u64).collect::<Vec<_>>()) as u64, h128(&seq.iter().map(|x| *x as u64).collect::<Vec<_>>()) as u64]));
     });
-    let part_name = ["", "deadline landing in every callback", "work cap per call", "infeasible world", "infeasible world after a life in the free world", "infeasible world, seeded deep runs"][job.part as usize];
+    let part_name = ["", "deadline landing in every callback", "work cap per call", "infeasible world", "infeasible world after a life in the free world", "infeasible world, seeded deep runs", "goal sampler that never delivers"][job.part as usize];
     rep.sample(|| json!({"scenario": job.sc.tag, "part": part_name, "letters": job.letters, "depth": job.depth}));
 }
 
@@ -545,7 +578,7 @@ pub fn run(tier: &'static str) -> i32 {
             "time is logical: the bound `T plus one iteration` is decided as `the deadline is consulted before every iteration and nothing but the rest of the current iteration runs after it has passed` plus `one iteration is finite` (DESIGN 1.3)".into(),
             "a sampler call is the first action of every iteration in all four planners".into(),
         ],
-        must_be_positive: vec!["landings", "landing_timeouts", "landing_successes_in_the_same_iteration", "landed_in_callback_kind_0", "landed_in_callback_kind_1", "landed_in_callback_kind_2", "landed_in_callback_kind_3", "infeasible_after_feasible_life_cases", "infeasible_seeded_runs", "feasible_life_paths_PRM", "feasible_life_paths_RRT", "feasible_life_paths_RRTStar", "feasible_life_paths_RRTConnect", "zero_timeout_calls", "work_cap_cases", "infeasible_Timeout", "infeasible_NoSolutionFound"],
+        must_be_positive: vec!["landings", "landing_timeouts", "landing_successes_in_the_same_iteration", "landed_in_callback_kind_0", "landed_in_callback_kind_1", "landed_in_callback_kind_2", "landed_in_callback_kind_3", "infeasible_after_feasible_life_cases", "infeasible_seeded_runs", "dead_goal_sampler_cases_returned", "feasible_life_paths_PRM", "feasible_life_paths_RRT", "feasible_life_paths_RRTStar", "feasible_life_paths_RRTConnect", "zero_timeout_calls", "work_cap_cases", "infeasible_Timeout", "infeasible_NoSolutionFound"],
     };
     finish(&meta, rep, t0)
 }
